@@ -68,6 +68,8 @@ structure Inst where
   last : Option (Option (List V)) := none
   /-- `inject`ed debounce: the run of predicate-equal samples the injected counter stands for -/
   base : Nat := 0
+  /-- constructed over the instrumented sample type of the harness (C19) -/
+  tracked : Bool := false
 
 structure PipeInst where
   shape : PShape
@@ -418,7 +420,7 @@ def stepFilterOp (d : DState) (op : String) (toks impl : List String) : Option (
     let id ← id.toNat?
     match mkCfg kind (parseKV rest) with
     | some cfg =>
-      let d := d.put id { st := cfg.init }
+      let d := d.put id { st := cfg.init, tracked := (parseKV rest).get "T" == some "tracked" }
       some (report d op { model := "ok", impl := implS })
     | none => none
   | "inject" :: id :: kind :: rest => do
@@ -467,7 +469,7 @@ def stepFilterOp (d : DState) (op : String) (toks impl : List String) : Option (
   | ["reset", id] => do
     let id ← id.toNat?
     let inst ← d.get id
-    let d := (d.put id { st := inst.st.reset, hist := [], last := none }).flag "reset"
+    let d := (d.put id { st := inst.st.reset, hist := [], last := none, tracked := inst.tracked }).flag "reset"
     some (report d op { model := "ok", impl := implS })
   | ["clone", id, nid] => do
     let inst ← d.get (← id.toNat?)
@@ -480,12 +482,19 @@ def stepFilterOp (d : DState) (op : String) (toks impl : List String) : Option (
   | ["fresh", id, nid] => do
     -- a newly constructed instance with the configuration of `id`
     let inst ← d.get (← id.toNat?)
-    let d := (d.put (← nid.toNat?) { st := inst.st.config.init }).flag "fresh"
+    let d := (d.put (← nid.toNat?) { st := inst.st.config.init, tracked := inst.tracked }).flag "fresh"
     some (report d op { model := "ok", impl := implS })
   | ["drop", id] => do
     let id ← id.toNat?
     let _ ← d.get id
     some (report { d with insts := d.insts.filter (·.1 != id) } op { model := "ok", impl := implS })
+  | ["live"] =>
+    -- C19: the harness's ledger of live instrumented samples against the samples the models own
+    let total := (d.insts.filter (·.2.tracked)).foldl (fun n p => n + p.2.st.owned) 0
+    let e := s!"live={total} errors=0"
+    let d := d.flag (if total == 0 then "ledger.empty" else "ledger.nonempty")
+    some (report d op { model := e, impl := implS, kind := "ledger",
+                        clauses := [{ name := "C19.ledger", ok := e == implS, expected := e }] })
   | "same" :: a :: b :: name :: rest => do
     -- the implementation's last outputs of two instances must coincide (component `k` if given);
     -- the harness prints both after `=>`, separated by `|`
